@@ -66,10 +66,10 @@ World gen_world(Rng &r) {
         k++;
     }
     // ancestor chain
-    int depth = (int)r.range(1, 12);
+    int depth = r.chance(1, 10) ? 0 : (int)r.range(1, 12);   // depth 0: the process is a direct child of pid 1 (daemon) or of pid 0
     w.procs.clear();
     std::vector<int> pids = {w.pid};
-    for (int i = 0; i < depth; i++) { int p; bool dup; do { p = (int)r.range(2, 99999); dup = false; for (int q : pids) if (q == p) dup = true; } while (dup); pids.push_back(p); }
+    for (int i = 0; i < depth; i++) { int p; bool dup; do { p = r.chance(1, 3) ? (int)r.range(1000000, 4194303) : (int)r.range(2, 99999); dup = false; for (int q : pids) if (q == p) dup = true; } while (dup); pids.push_back(p); }
     pids.push_back(r.chance(9, 10) ? 1 : 0);   // attached into a container: chain ends at pid 0
     for (size_t i = 0; i + 1 < pids.size(); i++) {
         Proc p; p.pid = pids[i]; p.ppid = pids[i + 1]; p.comm = gen_comm(r);
